@@ -92,12 +92,20 @@ const char *outcome_name(int o) {
     static const char *n[] = {"returned", "abort", "null-deref", "exception", "wild-segv"};
     return n[o];
 }
+static volatile sig_atomic_t g_fatal_sig = 0;
+static void fatal_alarm(int) { int s = g_fatal_sig ? (int) g_fatal_sig : SIGSEGV; signal(s, SIG_DFL); raise(s); _exit(128 + s); }
 static void segv_handler(int sig, siginfo_t *si, void *) {
     if (tl_jmp) {
         tl_fault = (uintptr_t) si->si_addr;
         sigjmp_buf *j = tl_jmp;
         siglongjmp(*j, tl_fault < 4096 ? O_NULLDEREF : O_WILDSEGV);
     }
+    // (diagnostics below must never keep a dying worker alive: a crash inside malloc holds the arena lock, and anything that
+    //  allocates - the first backtrace() loads libgcc_s - would wait for it for ever.  Seen as 30-minute hangs of two checks run
+    //  against seeded use-after-free changes.  The unwinder is loaded at start-up and an alarm re-raises the signal after 2 s.)
+    g_fatal_sig = sig;
+    signal(SIGALRM, fatal_alarm);
+    alarm(2);
     // fatal: say where and in which memory situation (an allocation that failed under memory pressure looks like a null or
     // near-null dereference in code that does not check), then die with the default action so that the driver classifies it
     {
@@ -111,6 +119,7 @@ static void segv_handler(int sig, siginfo_t *si, void *) {
     raise(sig);
 }
 void install_signal_handlers() {
+    { void *bt[4]; (void) backtrace(bt, 4); }   // loads the unwinder now, not inside a signal handler
     struct sigaction sa;
     memset(&sa, 0, sizeof sa);
     sa.sa_sigaction = segv_handler;
